@@ -19,12 +19,12 @@ DEFPART = {"Text": "defText", "Number": "defNumber", "Switch": "defSwitch", "Lig
 ONEPART = {"Text": "oneText", "Number": "oneNumber", "Switch": "oneSwitch", "Light": "oneLight", "BLOB": "oneBLOB"}
 
 
-def defmsg(dev, name, K, els, state="Ok", label=None, group=None, v=0):
+def defmsg(dev, name, K, els, state="Ok", label=None, group=None, v=0, rule="AnyOfMany"):
     attrs = [("device", dev), ("name", name), ("state", state)]
     if K != "Light":
         attrs.append(("perm", "rw"))
     if K == "Switch":
-        attrs.append(("rule", "AnyOfMany"))
+        attrs.append(("rule", rule))
     if label:
         attrs.append(("label", label))
     if group:
@@ -77,6 +77,10 @@ def alphabet(tier):
         A.append(defmsg("D1", "V1", K, ("a",), "Busy", None, None, 1))
     A.append(defmsg("D1", "V2", "Text", ("a",)))
     A.append(defmsg("D2", "V1", "Text", ("a", "b"), "Idle"))
+    # exclusive switch rules: the client mirrors what it is told, it does not apply the rule to partial updates itself
+    A.append(defmsg("D1", "V1", "Switch", ("a", "b"), "Ok", None, None, 0, "OneOfMany"))
+    if tier == "thorough":
+        A.append(defmsg("D1", "V1", "Switch", ("a", "b"), "Ok", None, None, 0, "AtMostOne"))
     # a redefinition that ADDS an element (and reorders): the client must learn the new member
     A.append(defmsg("D1", "V1", "Text", ("c", "a", "b"), "Ok", None, "G3"))
     A.append(setmsg("D1", "V1", "Text", (("c", "t2"),), "Idle"))
